@@ -14,6 +14,7 @@ import (
 
 	"github.com/vmware/go-ipfix/pkg/entities"
 	"github.com/vmware/go-ipfix/pkg/exporter"
+	"github.com/vmware/go-ipfix/pkg/registry"
 
 	"verifharness/ev"
 	"verifharness/exph"
@@ -40,6 +41,11 @@ type Op struct {
 	// FixedStr > 0: the element list additionally holds, at that position, a string element declared
 	// with a fixed length; the record's bytes are then not compared with the reference encoding
 	FixedStr int `json:"fixed_str,omitempty"`
+	// Foreign > 0: the element list additionally holds, at that position, an element whose declared
+	// data type has no constructor of its own (dateTimeMicroseconds), carried by an unsigned64 value
+	// object - the only way an application can put such an element into a record. Not compared with
+	// the reference encoding either; lengths, buffers and the agreement of the add paths are.
+	Foreign int `json:"foreign,omitempty"`
 }
 
 type Case struct {
@@ -78,6 +84,15 @@ func elements(o Op, tpl bool) []entities.InfoElementWithValue {
 		p := (o.FixedStr - 1) % (len(els) + 1)
 		fs := glue.Element(glue.IE(glue.FixedString), ref.TString, ref.Value{B: []byte("sixteen-byte-str")[:8+o.FixedStr%9]})
 		els = append(els[:p:p], append([]entities.InfoElementWithValue{fs}, els[p:]...)...)
+	}
+	if o.Foreign > 0 && !tpl {
+		p := (o.Foreign - 1) % (len(els) + 1)
+		ie, err := registry.GetInfoElement("flowStartMicroseconds", registry.IANAEnterpriseID)
+		if err != nil {
+			panic(err)
+		}
+		fe := entities.NewUnsigned64InfoElement(ie, 0x0102030405060708)
+		els = append(els[:p:p], append([]entities.InfoElementWithValue{fe}, els[p:]...)...)
 	}
 	return els
 }
@@ -189,7 +204,7 @@ func play(c Case, forcePath int, st *Stats) ([]byte, *ev.Failure) {
 			}
 			if m.tpl {
 				m.recs = append(m.recs, ref.EncodeTemplateRecord(nil, ref.Template{ID: m.id, Fields: o.Fields}))
-			} else if o.FixedStr > 0 {
+			} else if o.FixedStr > 0 || o.Foreign > 0 {
 				// not comparable with the reference encoding: take the record as serialized now; it must
 				// stay that way, and be the same through every add path and in a fresh set
 				recs := set.GetRecords()
@@ -308,7 +323,7 @@ func play(c Case, forcePath int, st *Stats) ([]byte, *ev.Failure) {
 
 type Stats struct {
 	resetAfterRecords, reuseDifferent, nontrivial, havePrev, prevTpl, refusedAdd bool
-	prevID                                                            uint16
+	prevID                                                                       uint16
 }
 
 func runCase(c Case, st *Stats) *ev.Failure {
@@ -366,6 +381,9 @@ func genCase(t *rapid.T) Case {
 				o.Spare = rapid.SampledFrom([]int{0, 0, 1, 5, 8}).Draw(t, "spare")
 				if rapid.IntRange(0, 9).Draw(t, "fixedstr") == 0 {
 					o.FixedStr = rapid.IntRange(1, 13).Draw(t, "fixedstrpos")
+				}
+				if rapid.IntRange(0, 11).Draw(t, "foreign") == 0 {
+					o.Foreign = rapid.IntRange(1, 13).Draw(t, "foreignpos")
 				}
 				if rapid.IntRange(0, 7).Draw(t, "bad") == 0 {
 					o.Bad = rapid.SampledFrom([]string{"v6_in_ipv4", "mac5", "fixed_short"}).Draw(t, "badkind")
